@@ -1,5 +1,5 @@
 \* exhaustive check with TWO NodeClaims (one drifted, one not, across a version bump; old-replica stamps), fewer atoms
-CONSTANTS Claims = {"c1", "c2"}  AtomIds = {1, 10}  Types = {"small", "large"}  Zones = {"zone-a"}  CTs = {"spot"}
+CONSTANTS Claims = {"c1", "c2"}  AtomIds = {10, 18}  Types = {"small", "large"}  Zones = {"zone-a"}  CTs = {"spot"}
           MaxLen = 40  MaxEdits = 2  MaxAtoms = 1  Wk = "none"
 SPECIFICATION Spec
 VIEW view
